@@ -67,6 +67,8 @@ def run_job(job):
             return res
         tr = c.transformer
         holder = tr.il_ops_holder
+        if job.get("fresh_counter"):
+            holder.hybrid_op_count = 0      # same h_tmpN numbering in every layout / worker (see run_insn)
         res["hpre"] = holder.hybrid_op_count
         try:
             with contextlib.redirect_stdout(io.StringIO()):
